@@ -1022,7 +1022,7 @@ func (t *tokenizer) readTimestamp() (string, error) {
 		return "", err
 	}
 	if isDigit(c) {
-		if c, err = t.readDigits(c, &w); err != nil {
+		if c, err = t.readPlainDigits(c, &w); err != nil {
 			return "", err
 		}
 	}
